@@ -112,10 +112,10 @@ Init == /\ lr \in LRs
         /\ IF Fam = "A"
            THEN \E r \in 0..MaxRare, d \in 1..MaxDom, big \in Bigs :
                    /\ r + d >= 1 /\ r + d <= 256 /\ r + d <= Pow2(lr)
-                   /\ (big + d) * Pow2(lr) < 2000000000
+                   /\ r + d * (big + d) < 1000000000 \div Pow2(lr)      \* keeps every product below 2^31 (TLC integers)
                    /\ hist = FamilyA(r, d, big)
            ELSE /\ hist \in SeqsUpTo(MaxLen)
-                /\ \A i \in 1..Len(hist) : hist[i] * Pow2(lr) < 2000000000
+                /\ Sum(hist) < 1000000000 \div Pow2(lr)
         /\ res = Normalize(Impl, hist, Sum(hist), Pow2(lr))
 Next == UNCHANGED <<hist, lr, res>>
 Spec == Init /\ [][Next]_<<hist, lr, res>>
